@@ -13,6 +13,9 @@ CLAIMED = {
  "C13": ("rapid property-based testing against an own bit-level base32/base64 codec; exhaustive enumeration of all inputs <= 2 bytes and of every foreign byte value; native fuzzing of the decoders (thorough)",
          "Encoders compared with an independent bit-level model on every byte string of length <= 2 and ~100k generated ones; decoders classified must-accept / must-reject / grey by the model on ~400k grammar-generated strings per quick run, limits of the Safe variants probed at limit-1/limit/limit+1. Exploration: longer strings are sampled.",
          "The bit-level model in the harness is the reference; Go's encoding/base32|64 are NOT trusted (the check found two leniencies in encoding/base32 that the library inherited).", "DESIGN.md 5/C13"),
+ "C11": ("rapid property-based testing against an independent strict mapping codec (round trip + differential), structure-aware mutation of encodings, complete enumeration of tiny maps, native fuzzing of ReadMapping (thorough)",
+         "Map->bytes->map identity, canonical order, determinism over 5 conversions, exact size field and limit behaviour on ~60k generated maps per quick run (incl. sizes 65535+-3 and 256..300-byte strings); parser direction on ~150k mutated/arbitrary inputs: anything accepted must re-serialise to the consumed bytes and be accepted by the strict model, anything strictly well-formed must be accepted.",
+         "internal/model's strict mapping decoder is the reference; 'parsed without error' = empty error list or only the trailing-data warning the library's own callers filter.", "DESIGN.md 5/C11"),
 }
 checks = []
 for pid in ids:
